@@ -129,6 +129,36 @@ theorem not_only_compound_old_refuted :
       = some "a *".toList := by
   decide
 
+/-- **No placeholder survives** (all flag settings): whatever `SelectorSet::no_placeholder` lets
+through contains no `%name` anywhere — not in a compound and not, at any depth, inside the
+selector argument of any pseudo-class or pseudo-element, whatever its name (`Selector.hasPh`
+looks into every `PArg.sel`).  Proved by mutual induction over the nested selector AST. -/
+theorem output_has_no_placeholder (q : PhQuirks) (s t : SelSet) (h : SelSet.noPlaceholder q s = .some t) :
+    Selector.hasPhList t = false := by
+  apply Selector.hasPhList_false_of_forall
+  intro x hx
+  rcases collectPosAux_mem _ _ _ h x hx with h1 | h1
+  · simp at h1
+  · exact Selector.noPlaceholderList_hasPh q s x h1
+
+/-- **Every pseudo with a selector argument is filtered**: for every name `n` (`is`, `not`,
+`slotted`, `cue`, `current`, `nth-child`, vendor-prefixed or unknown) and both `:` and `::`
+forms, what `Pseudo::no_placeholder` keeps has a placeholder-free argument.  There is no list
+of "selector pseudo-classes" in the model: the argument being `Arg::Selector` is the only guard. -/
+theorem every_selector_pseudo_filtered (q : PhQuirks) (n : List Char) (e : Bool) (args : List Selector)
+    (p : Pseudo) (h : Pseudo.noPlaceholder q (.mk n (.sel args) e) = .some p) : p.hasPh = false :=
+  Pseudo.noPlaceholder_hasPh q _ p h
+
+/-- … and it is not vacuous: `::slotted(%p, .c)` keeps exactly `.c`, `::slotted(%p)` matches
+nothing (so its complex selector is removed by `removed_compound_removes_selector`). -/
+theorem slotted_is_filtered :
+    Pseudo.noPlaceholder phSpec (.mk "slotted".toList
+        (.sel [.leaf (Compound.ofPlaceholder "p"), .leaf (Compound.ofClass "c")]) true)
+      = .some (.mk "slotted".toList (.sel [.leaf (Compound.ofClass "c")]) true)
+    ∧ (Pseudo.noPlaceholder phSpec (.mk "slotted".toList (.sel [.leaf (Compound.ofPlaceholder "p")]) true)).isNone = true
+    ∧ (Pseudo.mk "slotted".toList (.sel [.leaf (Compound.ofPlaceholder "p")]) true).hasPh = true := by
+  refine ⟨rfl, rfl, rfl⟩
+
 /-- The code today is the specification model. -/
 theorem asis_is_spec : phAsis = phSpec := rfl
 
